@@ -715,7 +715,7 @@ public:
     for (size_t i = 0; i < m.getNumberOfRows(); i++)
     {
       out << "[";
-      for (size_t j = 0; j < m.getNumberOfColumns() - 1; j++)
+      for (size_t j = 0; j + 1 < m.getNumberOfColumns(); j++)
       {
         out << m(i, j) << ", ";
       }
@@ -743,7 +743,7 @@ public:
         out << ",";
 
       out << pIn;
-      for (size_t j = 0; j < m.getNumberOfColumns() - 1; j++)
+      for (size_t j = 0; j + 1 < m.getNumberOfColumns(); j++)
       {
         out << m(i, j) << ", ";
       }
@@ -791,7 +791,7 @@ public:
   {
     out << v.size() << std::endl;
     out << "[";
-    for (size_t i = 0; i < v.size() - 1; i++)
+    for (size_t i = 0; i + 1 < v.size(); i++)
     {
       out << v[i] << ", ";
     }
